@@ -278,12 +278,12 @@ def _run_job(args):
                 "crashed": True}
 
 
-def interleave(jobs):
+def interleave(jobs, key=None):
     """Jobs past the wall-clock budget are skipped (and reported).  So that a loaded machine does not silently drop a whole KIND of job, the classes of
     jobs (job["kind"], else the first component of the id) take turns; the order inside a class is the harness's."""
     classes = {}
     for j in jobs:
-        classes.setdefault(str(j.get("kind") or j.get("family") or str(j.get("id", "")).split("-")[0]), []).append(j)
+        classes.setdefault(str(key(j)) if key else str(j.get("kind") or j.get("family") or str(j.get("id", "")).split("-")[0]), []).append(j)
     out, queues = [], list(classes.values())
     while queues:
         for q in list(queues):
@@ -345,7 +345,7 @@ def main(harness_name, argv=None):
     if args.only:
         jobs = [j for j in jobs if re.search(args.only, j.get("id", ""))]
     if not getattr(H, "KEEP_JOB_ORDER", False):
-        jobs = interleave(jobs)
+        jobs = interleave(jobs, getattr(H, "JOB_CLASS", None))
     results = []
     if args.procs > 1 and len(jobs) > 1:
         ctx = mp.get_context("fork")
